@@ -1,7 +1,7 @@
 (* Props/C10.v — calibration and quantization select the same ops. *)
 From VF Require Import Base.Prelude Gen.Enums Gen.Configs Gen.Scopes
      Model.Recipe Model.Check Model.Graph Model.Plan Model.Calib.
-From VF Require Import Gen.Registry Gen.Checks Model.Calib Proofs.CalibProofs Proofs.ResumeProofs Proofs.PlanProofs.
+From VF Require Import Gen.Registry Gen.Checks Model.Calib Proofs.CalibProofs Proofs.ResumeProofs Proofs.PlanProofs Proofs.NeedCalProofs.
 
 (* The two scope functions (regenerated from calibrator.py and
    params_generator.py on every run) build the same token list for EVERY list
@@ -100,3 +100,13 @@ Theorem C10_missing_statistics_only_for_absent_runtime_entry :
     (exists const, get_tensor_transformations c inbound const = Err e).
 Proof. exact wrapper_error. Qed.
 Print Assumptions C10_missing_statistics_only_for_absent_runtime_entry.
+
+(* the gate of Quantizer.calibrate(): whenever ANY (operator, scope) resolves
+   to a static-range config (INTEGER compute with an activation config),
+   need_calibration is true — calibration is never skipped for a recipe under
+   which quantization will ask for statistics *)
+Theorem C10_static_resolution_implies_need_calibration :
+  forall (check : akey -> opname -> ocfg -> bool) (matches : Z -> Z -> bool) s target scope a c,
+    get check matches s target scope = (a, c) -> static_cfg c = true -> need_calibration s = true.
+Proof. exact static_resolution_needs_calibration. Qed.
+Print Assumptions C10_static_resolution_implies_need_calibration.
